@@ -70,6 +70,11 @@ async fn run(mut s: Sim, mut rng: Rng, _len: usize) -> Sim {
             g.eps.push(Ep { e, ..Default::default() }); stage[created] = 1; created += 1;
             continue;
         }
+        if rng.chance(1, 12) {   // the admin legally changes a parameter that open distributions have snapshotted (relay fee, fees)
+            let st = if rng.chance(2, 3) { RdSetting::RelayLamports(*rng.pick(&[5001u32, 9_000, 60_000, 2_000_000])) }
+                     else { RdSetting::FeeParams(rng.below(10_001) as u16, rng.below(10_001) as u16, 0, 5, rng.below(5) as u32) };
+            let ix = s.rd_configure(&g.admin, st); s.op(tx(vec![ix])).await;
+        }
         if cands.is_empty() { continue; }
         let i = cands.remove(rng.below(cands.len() as u64) as usize);
         let e = i as u64;
